@@ -7,6 +7,10 @@ R=${VERIF_REPO:-/repo}
 cd "$V"
 S=$1; shift
 git -C "$R" diff --quiet || { echo "$R not clean"; exit 2; }
+# compiled Coq files of the clean tree are kept, so that the revert below does not cost a rebuild of the skeleton proofs
+export VERIF_VOCACHE=1
+./bin/goextract "$R" coq/gen > /dev/null
+[ -d "coq/.vocache/$(python3 -m lib.vocache key)" ] || python3 -m lib.vocache store > /dev/null
 git -C "$R" apply "$V/seeded/$S/patch.diff" || { echo "apply failed"; exit 2; }
 T=${TMPDIR:-/tmp}/seedrun.$(basename "$V").$$
 mkdir -p "$T"
@@ -17,3 +21,4 @@ done
 rm -rf "$T"
 for i in 1 2 3 4 5; do git -C "$R" checkout -- . && break; sleep 1; done
 ./bin/goextract "$R" coq/gen > /dev/null
+python3 -m lib.vocache restore > /dev/null
